@@ -1,5 +1,6 @@
 ------------------------------ MODULE MCFields ------------------------------
 EXTENDS Fields
+WriterFormats == {"delimited", "fixed"}
 AllFormats == {"delimited", "fixed", "excel", "ods"}
 S(n) == <<n>>
 \* none, exact 2, lower-only 2..., upper-only ...2, multi-item 1...1, 3...4
